@@ -676,18 +676,25 @@ impl World for ByValueWorld {
             _ => &[],
         }
     }
+    fn case_is_heavy(case: &FCase) -> bool {
+        case.plan.iter().any(|op| matches!(op, FOp::NewArray { n } | FOp::NewBuilder { n } | FOp::EmptyConsumer { n } | FOp::FromFnNew { n, .. } | FOp::FromFnOld { n, .. } if *n > 8))
+    }
     fn sweep_len() -> u64 {
-        sweep_cases().len() as u64
+        sweep_build(&|_| false, false).1
     }
     fn sweep_names() -> Vec<String> {
-        sweep_cases().into_iter().map(|(n, _)| n).collect()
+        sweep_build(&|_| false, true).0.into_iter().map(|(n, _)| n).collect()
     }
     fn sweep_some(indices: &[u64]) -> Vec<(u64, FCase)> {
-        let all = sweep_cases();
-        indices.iter().filter_map(|i| all.get(*i as usize).map(|(_, c)| (*i, c.clone()))).collect()
+        let mut idx: Vec<u64> = indices.to_vec();
+        idx.sort_unstable();
+        idx.dedup();
+        let set: std::collections::BTreeSet<u64> = idx.iter().copied().collect();
+        let (v, n) = sweep_build(&|i| set.contains(&i), false);
+        idx.into_iter().filter(|i| *i < n).zip(v.into_iter().map(|(_, c)| c)).collect()
     }
     fn sweep_case(i: u64) -> Option<FCase> {
-        sweep_cases().into_iter().nth(i as usize).map(|(_, c)| c)
+        Self::sweep_some(&[i]).into_iter().next().map(|(_, c)| c)
     }
 }
 
